@@ -80,7 +80,8 @@ static uint semWaiter(void*)
     if(errno != EINTR) { vf_failf("C11:semaphore:wait-failed", "wait() returned false"); return 0; }
   }
 }
-static uint semSignaler(void*) { ++signalsStarted; g_sem->signal(); return 0; }
+static long long semPostAt; static bool semMissed[8];
+static uint semSignaler(void*) { ++signalsStarted; g_sem->signal(); semPostAt = vf_now_ns(); return 0; }
 static uint semTryWaiter(void*) { long b0 = vf_my_block_count(); bool ok = g_sem->tryWait(); if(vf_my_block_count() != b0) vf_failf("C11:semaphore:tryWait-blocked", "tryWait blocked"); if(ok) gotOne(); results[vf_thread_id()] = ok; return 0; }
 static uint semTimedWaiter(void* p)
 {
@@ -88,12 +89,13 @@ static uint semTimedWaiter(void* p)
   bool ok = g_sem->wait(timeout);
   if(ok) gotOne();
   else if(vf_now_ns() < start + timeout * 1000000LL) vf_failf("C11:semaphore:timeout-early", "wait(%lld ms) returned false after %lld ns", timeout, vf_now_ns() - start);
+  if(!ok && semPostAt && semPostAt < start + timeout * 1000000LL) semMissed[vf_thread_id()] = true;   // judged at the end: was the unit still there?
   results[vf_thread_id()] = ok;
   return 0;
 }
 static void scenSemaphore(int variant)
 {
-  successes = signalsStarted = 0;
+  successes = signalsStarted = 0; semPostAt = 0; for(int i = 0; i < 8; ++i) semMissed[i] = false;
   Thread a, b, c;
   if(variant == 0)
   { // count 1, two blocking waiters, one signaler: everybody must get through (a lost unit is a deadlock)
@@ -120,6 +122,7 @@ static void scenSemaphore(int variant)
     c.start(semTimedWaiter, (void*)(long)20);
     a.join(); b.join(); c.join();
     bool left = s.tryWait();
+    if(left && (semMissed[1] || semMissed[3])) vf_failf("C11:semaphore:blocked-while-positive", "a timed wait ran into its timeout although signal() had returned before the deadline and the unit was never taken");
     if(successes + (left ? 1 : 0) != 1) vf_failf("C11:semaphore:conservation", "one signal, %d successful timed waits and %d units left", successes, (int)left);
     vf_outcome("a=%d c=%d", results[1], results[3]);
   }
@@ -134,7 +137,8 @@ static uint sigWaiter(void*)
   else if(setStarted == 0) vf_failf("C11:signal:wait-without-set", "wait returned true although the signal has not been set");
   return 0;
 }
-static uint sigSetter(void*) { ++setStarted; g_sig->set(); ++setDone; return 0; }
+static long long setDoneAt; static bool g_noReset;
+static uint sigSetter(void*) { ++setStarted; g_sig->set(); setDoneAt = vf_now_ns(); ++setDone; return 0; }
 static uint sigSetterAfterReset(void*) { while(!resetDone) Thread::yield(); ++setStarted; g_sig->set(); ++setDone; return 0; }
 static uint sigResetter(void*) { g_sig->reset(); ++resetDone; return 0; }
 static uint sigResetThenWait(void*)
@@ -151,12 +155,15 @@ static uint sigTimedWaiter(void* p)
   bool ok = g_sig->wait(timeout);
   if(ok && setStarted == 0) vf_failf("C11:signal:wait-without-set", "timed wait returned true although the signal has not been set");
   if(!ok && vf_now_ns() < start + timeout * 1000000LL) vf_failf("C11:signal:timeout-early", "wait(%lld ms) returned false after %lld ns", timeout, vf_now_ns() - start);
+  // no waiter stays blocked while the signal remains set: set() had returned before the deadline and nobody resets in this scenario
+  if(!ok && g_noReset && setDone && setDoneAt < start + timeout * 1000000LL)
+    vf_failf("C11:signal:blocked-while-set", "wait(%lld ms) timed out although set() had returned %lld ms before the deadline and the signal was never reset", timeout, (start + timeout * 1000000LL - setDoneAt) / 1000000);
   results[vf_thread_id()] = ok;
   return 0;
 }
 static void scenSignal(int variant)
 {
-  setStarted = setDone = resetDone = 0;
+  setStarted = setDone = resetDone = 0; setDoneAt = 0; g_noReset = variant == 3;
   Thread a, b, c;
   if(variant == 0) { Signal s; g_sig = &s; a.start(sigWaiter, 0); b.start(sigWaiter, 0); c.start(sigSetter, 0); a.join(); b.join(); c.join(); }
   else if(variant == 1) { Signal s(true); g_sig = &s; a.start(sigResetThenWait, 0); b.start(sigSetterAfterReset, 0); a.join(); b.join(); }
